@@ -77,7 +77,8 @@ KEYWORDS = {"then", "is", "when", "else", "elsif", "and", "or", "xor", "nand", "
             "return", "downto", "to", "others", "begin", "end", "process", "block", "signal", "variable", "constant",
             "port", "map", "entity", "architecture", "of", "in", "out", "inout", "assert", "severity", "null",
             "component", "attribute", "library", "use", "package", "body", "function", "generic", "report", "loop",
-            "for", "while", "wait", "mod", "rem", "abs", "sll", "srl", "sla", "sra", "rol", "ror", "open", "all", "work"}
+            "for", "while", "wait", "mod", "rem", "abs", "sll", "srl", "sla", "sra", "rol", "ror", "open", "all", "work",
+            "type", "subtype", "array"}
 
 FUNCS = {"unsigned", "std_logic_vector", "resize", "shift_left", "shift_right", "rotate_left", "rotate_right",
          "to_integer", "bool2stdlogic", "stdlogic2bool", "rising_edge", "falling_edge", "to_unsigned", "signed",
@@ -203,6 +204,10 @@ class Parser:
 
     def type_(self):
         name = self.ident().lower()
+        if name in getattr(self, "types", {}):
+            return self.types[name]
+        if name == "integer":
+            return ("int",)
         if name in ("std_logic", "std_ulogic"):
             return ("sl",)
         if name == "boolean":
@@ -219,15 +224,25 @@ class Parser:
         raise Unsupported("type " + name)
 
     def int_expr(self):
+        """static integer expression: [-] term { (+|-) term },  term = literal | integer constant"""
+        def term():
+            tok = self.next()
+            if tok[0] == "num":
+                return int(tok[1].replace("_", ""))
+            if tok[0] == "id" and tok[1].lower() in getattr(self, "ints", {}):
+                return self.ints[tok[1].lower()]
+            raise Unsupported("integer literal expected, got " + tok[1])
         neg = False
         if self.is_sym("-"):
             self.next()
             neg = True
-        tok = self.next()
-        if tok[0] != "num":
-            raise Unsupported("integer literal expected, got " + tok[1])
-        v = int(tok[1].replace("_", ""))
-        return -v if neg else v
+        v = term()
+        v = -v if neg else v
+        while self.is_sym("+") or self.is_sym("-"):
+            op = self.next()[1]
+            t = term()
+            v = v + t if op == "+" else v - t
+        return v
 
     def decls(self, allow):
         """declarative part up to BEGIN"""
@@ -242,11 +257,42 @@ class Parser:
                 self.expect_sym(":")
                 ty = self.type_()
                 init = None
+                if ty[0] == "int":
+                    if k != "constant":
+                        raise Unsupported("integer signal/variable")
+                    self.expect_sym(":=")
+                    self.ints[name.lower()] = self.int_expr()
+                    self.expect_sym(";")
+                    continue
                 if self.is_sym(":="):
                     self.next()
-                    init = self.expr()
+                    init = self.array_init(ty) if ty[0] == "array" else self.expr()
                 self.expect_sym(";")
                 out.append((k, name, ty, init))
+            elif k == "subtype":
+                self.next()
+                name = self.ident()
+                self.expect_kw("is")
+                self.types[name.lower()] = self.type_()
+                self.expect_sym(";")
+            elif k == "type":
+                self.next()
+                name = self.ident()
+                self.expect_kw("is")
+                tok = self.next()
+                if tok[0] != "id" or tok[1].lower() != "array":
+                    raise Unsupported("type declaration that is not an array")
+                self.expect_sym("(")
+                hi = self.int_expr()
+                self.expect_kw("downto")
+                lo = self.int_expr()
+                self.expect_sym(")")
+                self.expect_kw("of")
+                el = self.type_()
+                if lo != 0 or el[0] != "uns":
+                    raise Unsupported("array type that is not (N-1 downto 0) of UNSIGNED")
+                self.types[name.lower()] = ("array", hi + 1, el)
+                self.expect_sym(";")
             elif k == "attribute":
                 self.skip_to_semicolon()
             elif k == "component":
@@ -259,7 +305,34 @@ class Parser:
                 raise Unsupported(f"declaration starting with {self.peek()[1]!r}")
         return out
 
+    def array_init(self, ty):
+        """( i => "bits", ..., others => (others => 'c') )  ->  ('arrayinit', {i: bits}, default char)"""
+        self.expect_sym("(")
+        words, default = {}, None
+        while True:
+            if self.kw() == "others":
+                self.next()
+                self.expect_sym("=>")
+                e = strip_paren(self.expr())
+                if e[0] != "agg" or e[1][0][0] != "others" or strip_paren(e[1][0][1])[0] != "chr":
+                    raise Unsupported("array initialiser default")
+                default = strip_paren(e[1][0][1])[1].upper()
+            else:
+                i = self.int_expr()
+                self.expect_sym("=>")
+                e = strip_paren(self.expr())
+                if e[0] != "str" or len(e[1]) != type_width(ty[2]):
+                    raise Unsupported("array initialiser element")
+                words[i] = e[1].upper()
+            if self.is_sym(","):
+                self.next()
+                continue
+            break
+        self.expect_sym(")")
+        return ("arrayinit", words, default)
+
     def architecture(self):
+        self.types, self.ints = {}, {}
         self.expect_kw("architecture")
         aname = self.ident()
         self.expect_kw("of")
@@ -331,6 +404,9 @@ class Parser:
             self.expect_sym(")")
             self.expect_sym(";")
             return ("inst", label, ename, assoc)
+        if self.kw() == "process":
+            self.anon = getattr(self, "anon", 0) + 1
+            return self.process("anonymous_process_%d" % self.anon)
         # unlabeled concurrent signal assignment
         tgt = self.ident()
         self.expect_sym("<=")
@@ -437,7 +513,16 @@ class Parser:
             raise Unsupported(f"sequential statement {k}")
         tgt = self.ident()
         if self.is_sym("("):
-            raise Unsupported("assignment to an indexed/sliced target")
+            # element of an array signal (memory write port):  memory(to_integer(addr)) <= data;
+            self.next()
+            idx = self.expr()
+            if self.kw() in ("downto", "to"):
+                raise Unsupported("assignment to a slice")
+            self.expect_sym(")")
+            self.expect_sym("<=")
+            e = self.expr()
+            self.expect_sym(";")
+            return ("sassign_idx", tgt, idx, e)
         tok = self.next()
         if tok == ("sym", "<="):
             kind = "sassign"
@@ -584,10 +669,10 @@ class Parser:
                         a = ("call", a[1].lower(), args)
                     elif len(args) == 1 and args[0][0] == "int":
                         a = ("index", a, args[0][1])
-                    elif a[0] == "name":
-                        raise Unsupported(f"call of unknown function or dynamic index: {a[1]}")
+                    elif a[0] == "name" and len(args) == 1:
+                        a = ("dynindex", a, args[0])      # element of an array signal; resolved at elaboration
                     else:
-                        raise Unsupported("dynamic index")
+                        raise Unsupported("call of unknown function")
             elif self.is_sym("'"):
                 self.next()
                 attr = self.ident().lower()
@@ -630,6 +715,8 @@ def parse_files(texts):
 # elaboration: flatten the hierarchy into nets and processes
 # ----------------------------------------------------------------------------------------------
 def type_width(ty):
+    if ty[0] == "array":
+        return ty[1]            # number of words (the value of an array net is a tuple of word strings)
     return 1 if ty[0] in ("sl", "bool") else ty[1] - ty[2] + 1
 
 
@@ -671,6 +758,12 @@ class Scope:
 
 def literal_bits(e, ty):
     """static value of an initialiser: MSB-first string over 0 1 X U Z W L H -  (std_logic: 1 char)"""
+    if e[0] == "arrayinit":
+        ww = type_width(ty[2])
+        dflt = (e[2] if e[2] is not None else "U") * ww
+        if any(not (0 <= i < ty[1]) for i in e[1]):
+            raise Unsupported("array initialiser index out of range")
+        return tuple(e[1].get(i, dflt) for i in range(ty[1]))
     e = strip_paren(e)
     w = type_width(ty)
     if e[0] == "str":
@@ -700,6 +793,8 @@ def names_read(e, acc):
         names_read(e[2], acc); names_read(e[3], acc)
     elif k in ("slice", "index", "attr"):
         names_read(e[1], acc)
+    elif k == "dynindex":
+        names_read(e[1], acc); names_read(e[2], acc)
     elif k == "call":
         for a in e[2]:
             names_read(a, acc)
@@ -713,6 +808,9 @@ def stmt_names(stmts, reads, writes):
         if s[0] in ("sassign", "vassign"):
             writes.add(s[1].lower())
             names_read(s[2], reads)
+        elif s[0] == "sassign_idx":
+            writes.add(s[1].lower())
+            names_read(s[2], reads); names_read(s[3], reads)
         elif s[0] == "if":
             for c, b in s[1]:
                 names_read(c, reads)
